@@ -1,6 +1,6 @@
 (* C09 -- failures surface only as InverterError, with a correct consecutive-failure count. *)
 From Coq Require Import List Bool Arith.
-From GW Require Import Proto ProtoEvolves ProtoProps ProtoNoExc FailCount FailCountProofs Callbacks CallbackGen CallbackRefine Coroutines CoroutineGen CoroutineRefine InvProg InverterGen InvProgRefine.
+From GW Require Import Proto ProtoEvolves ProtoProps ProtoNoExc FailCount FailCountProofs Callbacks CallbackGen CallbackRefine Coroutines CoroutineGen CoroutineRefine InvProg InverterGen InvProgInst InvProgRefine.
 Import ListNotations.
 
 (* the count carried by the RequestFailedException of a failing request = failed requests since the last successful one
